@@ -492,6 +492,14 @@ theorem gen_formula_r2 (fam : Family) (levels scale edof : Î±) (loglik : (Nat â†
          mcFadden (loglik y mu w) (loglik y (fun _ => meanOf n y) w),
          mcFaddenAdj (loglik y mu w) (loglik y (fun _ => meanOf n y) w) edof) := by
   simp only [Gen.estimate_r2, r2Explained, explainedDeviance, totalDeviance, mcFadden, mcFaddenAdj, meanOf, mul_one]
+
+/-- the tail of `deviance_residuals` (from `sign = np.sign(y - mu)` to the `return`, i.e. what is computed once the inputs
+are validated and `mu` predicted) is the model's `devResid`, entry by entry.  Up to the field identity `-1 = 0 - 1` (the
+translation of `np.sign` writes `-1`, the model's `signOf` writes `0 - 1`) -/
+theorem gen_formula_deviance_residual (fam : Family) (levels scale : Î±) (scaled : Bool) (w y mu : Î±) :
+    Gen.deviance_residual (fun y mu w scaled => deviance fam levels scale scaled w y mu) y w scaled mu
+      = devResid fam levels scale scaled w y mu := by
+  simp only [Gen.deviance_residual, devResid, signOf, zero_sub]
 end field
 
 end gen_formulas
